@@ -6,19 +6,31 @@ Values are exact: a scalar is a rational, NaN, +inf or -inf; an element is a pai
 (re, im) (im = 0 for every non-complex dtype); a dtype is a *kind* (bool / integer with
 signedness and width / binary float format / complex of a float format).
 
-`decideAll` mirrors, step by step, what the code does NOW with the list of expected (JAX)
-outputs and the list of outputs ONNX Runtime returned:
+`decideAll` mirrors, step by step, what the code does NOW (after fix 61b87cb) with the list of
+expected (JAX) outputs and the list of outputs ONNX Runtime returned:
 
   1. count check
   per output i (in order, first failure wins):
   2. NCHW→NHWC back-transpose of `got` when i ∈ outputs_as_nchw and rank 4
   3. complex repack: expected complex, got float, got.shape = expected.shape ++ [2]
-       → got[...,0] + 1j*got[...,1], **cast to expected's dtype**
+       → a complex array assembled component-wise (`packed.real = got[...,0]; packed.imag = got[...,1]`),
+         dtype result_type(got, complex64); NO cast to the expected dtype
   4. shape check
-  5. if expected or got is floating/complex:
-        np.allclose(expected, got.astype(expected.dtype), rtol, atol, equal_nan=True)
-     else
-        np.array_equal(expected, got.astype(expected.dtype))
+  5. `_comparison_operands(expected, got)`:
+        same dtype                          → (expected, got)
+        np.can_cast(got → expected, "safe") → (expected, got.astype(expected.dtype))
+        otherwise                           → both .astype(np.result_type(expected, got))
+     then, if expected or got is floating/complex: np.allclose(lhs, rhs, rtol, atol, equal_nan=True)
+     else np.array_equal(lhs, rhs)
+
+Before the fix, step 3 computed `got[...,0] + 1j*got[...,1]` (a non-finite imaginary part makes the
+real part NaN) and cast to the expected dtype, and step 5 compared `got.astype(expected.dtype)`:
+`decideAllOld`, kept for the regression theorems in Props/C18.lean.
+
+`canCastSafe` / `resultKind` are numpy's `can_cast(…, "safe")` / `result_type` on kinds (validated
+against numpy on the whole 14×14 dtype table on every run).  numpy calls int64/uint64 → float64
+"safe" although it rounds above 2⁵³, and promotes int64 with uint64 or with any float to float64:
+that residual is what `NoLossyCast` (Lemmas/C18.lean) still has to exclude.
 
 `castEl` is numpy's `astype` on exact values (wrap for integer narrowing, truncation
 float→int, `≠ 0` to bool, round-to-nearest-even / overflow to ±inf for float narrowing,
@@ -234,8 +246,9 @@ def pairsModel : List El → List El
   | a :: b :: rest => repackPair a.re b.re :: pairsModel rest
   | _ => []
 
+/-- dtype of the repacked array: result_type(got, complex64) -/
 def Kind.toCplx : Kind → Kind
-  | .flt f => .cplx f
+  | .flt f => .cplx (if f.p ≤ 24 then f32 else f64)
   | k => k
 
 structure Cfg where
@@ -273,8 +286,83 @@ inductive Verdict where
   | unspecified (i : Nat)
   deriving DecidableEq, Repr
 
+/-! ### numpy's promotion rules on kinds -/
+
+/-- the precision of the smallest float numpy considers able to hold an integer of that width -/
+def intFloatP (bits : Nat) : Int := if bits ≤ 8 then 11 else if bits ≤ 16 then 24 else 53
+
+def fmtOfP (p : Int) : Fmt := if p ≤ 11 then f16 else if p ≤ 24 then f32 else f64
+def maxFmt (a b : Fmt) : Fmt := if a.p ≤ b.p then b else a
+
+/-- `np.can_cast(src, dst, casting="safe")` -/
+def canCastSafe : Kind → Kind → Bool
+  | .bool, _ => true
+  | .int ss sb, .int ds db =>
+    if ss then ds && decide (sb ≤ db) else if ds then decide (sb < db) else decide (sb ≤ db)
+  | .int _ sb, .flt f => decide (intFloatP sb ≤ f.p)
+  | .int _ sb, .cplx f => decide (intFloatP sb ≤ f.p)
+  | .flt s, .flt d => decide (s.p ≤ d.p)
+  | .flt s, .cplx d => decide (s.p ≤ d.p)
+  | .cplx s, .cplx d => decide (s.p ≤ d.p)
+  | _, _ => false
+
+/-- `np.result_type(a, b)` -/
+def resultKind : Kind → Kind → Kind
+  | .bool, k => k
+  | k, .bool => k
+  | .int s1 b1, .int s2 b2 =>
+    if s1 = s2 then .int s1 (max b1 b2)
+    else
+      let sb := if s1 then b1 else b2      -- width of the signed one
+      let ub := if s1 then b2 else b1      -- width of the unsigned one
+      if ub < sb then .int true sb else if 2 * ub ≤ 64 then .int true (2 * ub) else .flt f64
+  | .int _ b, .flt f => .flt (maxFmt (fmtOfP (intFloatP b)) f)
+  | .flt f, .int _ b => .flt (maxFmt (fmtOfP (intFloatP b)) f)
+  | .int _ b, .cplx f => .cplx (maxFmt (fmtOfP (intFloatP b)) f)
+  | .cplx f, .int _ b => .cplx (maxFmt (fmtOfP (intFloatP b)) f)
+  | .flt a, .flt b => .flt (maxFmt a b)
+  | .flt a, .cplx b => .cplx (maxFmt a b)
+  | .cplx a, .flt b => .cplx (maxFmt a b)
+  | .cplx a, .cplx b => .cplx (maxFmt a b)
+
+/-- `_comparison_operands(expected, got)`: (lhs, rhs) values; `none` = C-undefined cast (cannot
+    happen for the promotions numpy chooses, kept for totality) -/
+def operands (ek : Kind) (evals : List El) (gk : Kind) (gvals : List El) : Option (List El × List El) :=
+  if gk = ek then some (evals, gvals)
+  else if canCastSafe gk ek then (castList gk ek gvals).map fun r => (evals, r)
+  else
+    let c := resultKind ek gk
+    match castList ek c evals, castList gk c gvals with
+    | some l, some r => some (l, r)
+    | _, _ => none
+
 /-- the per-output decision of `_run_allclose` (steps 2–5). `none` = this output passes. -/
 def decideOne (cfg : Cfg) (i : Nat) (e g : Tn) : Option Verdict :=
+  let g2 := normExact cfg i e g
+  if e.shape ≠ g2.shape then some (.shape i)
+  else
+    match operands e.kind e.vals g2.kind g2.vals with
+    | none => some (.unspecified i)
+    | some lr =>
+      if e.kind.isFloating || g2.kind.isFloating then
+        if all2 (closeEl cfg.rtol cfg.atol) lr.1 lr.2 then none else some (.value i)
+      else
+        if all2 eqEl lr.1 lr.2 then none else some (.nonfloat i)
+
+def decideFrom (cfg : Cfg) : Nat → List Tn → List Tn → Verdict
+  | _, [], _ => .isMatch
+  | _, _, [] => .isMatch
+  | i, e :: es, g :: gs =>
+    match decideOne cfg i e g with
+    | some v => v
+    | none => decideFrom cfg (i + 1) es gs
+
+def decideAll (cfg : Cfg) (es gs : List Tn) : Verdict :=
+  if es.length ≠ gs.length then .count else decideFrom cfg 0 es gs
+
+/-- REGRESSION ONLY: the per-output decision BEFORE fix 61b87cb (repack via `re + 1j*im`, then
+    `got.astype(expected.dtype)` before the comparison) -/
+def decideOneOld (cfg : Cfg) (i : Nat) (e g : Tn) : Option Verdict :=
   let g2 := normModel cfg i e g
   -- the repack branch casts to the expected dtype right away (`astype(expected.dtype)`),
   -- the comparison casts again (a no-op then); both are one `castList` here
@@ -288,16 +376,16 @@ def decideOne (cfg : Cfg) (i : Nat) (e g : Tn) : Option Verdict :=
       else
         if all2 eqEl e.vals gc then none else some (.nonfloat i)
 
-def decideFrom (cfg : Cfg) : Nat → List Tn → List Tn → Verdict
+def decideFromOld (cfg : Cfg) : Nat → List Tn → List Tn → Verdict
   | _, [], _ => .isMatch
   | _, _, [] => .isMatch
   | i, e :: es, g :: gs =>
-    match decideOne cfg i e g with
+    match decideOneOld cfg i e g with
     | some v => v
-    | none => decideFrom cfg (i + 1) es gs
+    | none => decideFromOld cfg (i + 1) es gs
 
-def decideAll (cfg : Cfg) (es gs : List Tn) : Verdict :=
-  if es.length ≠ gs.length then .count else decideFrom cfg 0 es gs
+def decideAllOld (cfg : Cfg) (es gs : List Tn) : Verdict :=
+  if es.length ≠ gs.length then .count else decideFromOld cfg 0 es gs
 
 /-! ### executable specification (no cast) -/
 
@@ -312,9 +400,13 @@ def agreesFrom (cfg : Cfg) : Nat → List Tn → List Tn → Bool
 
 def agreesB (cfg : Cfg) (es gs : List Tn) : Bool := agreesFrom cfg 0 es gs
 
-/-- what the code compares for output `i` (repack as computed, then the cast to the expected
-    dtype) is exactly what ORT produced. -/
+/-- the promotion of the two operands to one dtype changes no value of output `i`, on either side -/
 def noLossyOne (cfg : Cfg) (i : Nat) (e g : Tn) : Bool :=
+  let g' := normExact cfg i e g
+  decide (operands e.kind e.vals g'.kind g'.vals = some (e.vals, g'.vals))
+
+/-- REGRESSION ONLY: the hypothesis the pre-fix soundness theorem needed -/
+def noLossyOneOld (cfg : Cfg) (i : Nat) (e g : Tn) : Bool :=
   let m := normModel cfg i e g
   decide (castList m.kind e.kind m.vals = some (normExact cfg i e g).vals)
 
